@@ -4,7 +4,7 @@ From Coq Require Import String.
 From Coq Require Import Reals List Bool Arith Lia.
 From Coquelicot Require Import Coquelicot.
 From Cij Require Import Ops ROps PolyModel InterpModel Poly Interp InterpMore.
-From CijGen Require Import MGFlowBase MGFlowR Gen_modegamma.
+From CijGen Require Import MGFlowBase MGLoopSem MGFlowR Gen_modegamma.
 Import ListNotations.
 
 (** the regenerated loop is well-formed: loops over range(nq) x range(np); the three returned arrays are
